@@ -350,6 +350,76 @@ Definition via_parent_parent (t : table) (r f g h : string) : outcome (option st
   bind2 (parent_method t None d r g) (fun e =>
   defining (parent_method t (Some e) e r h))).
 
+(* ---- call chains of arbitrary length: what the call context becomes at every hop.
+   A method body runs in a *data.ClassMethodContext; four of its fields decide how the calls written in the body
+   resolve: Class (x_cls), StaticClass (x_static, the late static binding class when set), SelfClass (x_self, set
+   only by CallParentMethod on its callee), and the class the body was found in (x_lex: the parser wrote it into
+   self::m() -> CallStaticMethodLater(lexical) and into CallParentMethod.CurrentClass).
+
+     $this->m()   CallObjectMethod, case *ThisValue: GetMethod on the object's class; callee context =
+                  ClassValue.CreateContext: Class unchanged, StaticClass nil, SelfClass nil
+     parent::m()  CallParentMethod: start class = SelfClass / lexical (when registered with a parent) / Class;
+                  callee (a fresh context of the same object): Class unchanged, SelfClass := class m was found in,
+                  StaticClass := the caller's StaticClass, or Class when that is nil (fix cb6c7e0: before it always
+                  Class, which in a static method is the class the method is written in)
+     self::m()    CallStaticMethod on the lexical class with forward = true (fix ac7bb5f): callee = staticMethodFunc:
+                  Class := defining class, StaticClass := the caller's late static binding class when that class is
+                  (checkClassIs) the named class or below it, else the named class
+     static::m()  CallStaticKeywordMethod: start = StaticClass or Class; callee = staticMethodFuncWithLateBinding:
+                  Class := StaticClass := that start class *)
+Inductive hop := HThis (m : string) | HSelf (s : string) | HStatic (s : string) | HParent (m : string).
+Record mctx := { x_cls : string; x_static : option string; x_self : option string; x_lex : string }.
+Definition lsb (x : mctx) : string := match x_static x with Some s => s | None => x_cls x end.
+Definition forwarded (t : table) (x : mctx) (named : string) : outcome string :=
+  let l := lsb x in
+  if String.eqb l named then Ok named
+  else match get_class t l with
+       | None => Ok named
+       | Some c => match check_class_is (chain_fuel t) t l c named with
+                   | Ok true => Ok l
+                   | Ok false | Throw => Ok named         (* acl != nil: not forwarded *)
+                   | OutOfFuel => OutOfFuel
+                   end
+       end.
+Definition hop_step (t : table) (x : mctx) (h : hop) : outcome (option mctx) :=
+  match h with
+  | HThis m =>
+      bind2 (object_method t (x_cls x) m) (fun d =>
+        Ok (Some {| x_cls := x_cls x; x_static := None; x_self := None; x_lex := d |}))
+  | HParent m =>
+      bind2 (parent_method t (x_self x) (x_lex x) (x_cls x) m) (fun e =>
+        Ok (Some {| x_cls := x_cls x; x_static := Some (lsb x); x_self := Some e; x_lex := e |}))
+  | HSelf s =>
+      bind2 (static_call t (x_lex x) s) (fun d =>
+        match forwarded t x (x_lex x) with
+        | Ok cc => Ok (Some {| x_cls := d; x_static := Some cc; x_self := None; x_lex := d |})
+        | Throw => Throw | OutOfFuel => OutOfFuel
+        end)
+  | HStatic s =>
+      bind2 (static_keyword_call t (x_static x) (x_cls x) s) (fun d =>
+        Ok (Some {| x_cls := lsb x; x_static := Some (lsb x); x_self := None; x_lex := d |}))
+  end.
+(* the classes whose definitions run, hop after hop *)
+Fixpoint hops (t : table) (x : mctx) (hs : list hop) : outcome (option (list string)) :=
+  match hs with
+  | [] => Ok (Some [])
+  | h :: r =>
+      match hop_step t x h with
+      | Ok (Some x') => match hops t x' r with Ok (Some l) => Ok (Some (x_lex x' :: l)) | o => o end
+      | Ok None => Ok None | Throw => Throw | OutOfFuel => OutOfFuel
+      end
+  end.
+(* entry from outside any class: $o->f() on an object of class r, or r::f() *)
+Definition enter (t : table) (static_entry : bool) (r f : string) : outcome (option mctx) :=
+  if static_entry
+  then bind2 (static_call t r f) (fun d => Ok (Some {| x_cls := d; x_static := Some r; x_self := None; x_lex := d |}))
+  else bind2 (object_method t r f) (fun d => Ok (Some {| x_cls := r; x_static := None; x_self := None; x_lex := d |})).
+Definition run_hops (t : table) (static_entry : bool) (r f : string) (hs : list hop) : outcome (option (list string)) :=
+  match enter t static_entry r f with
+  | Ok (Some x) => match hops t x hs with Ok (Some l) => Ok (Some (x_lex x :: l)) | o => o end
+  | Ok None => Ok None | Throw => Throw | OutOfFuel => OutOfFuel
+  end.
+
 (* ---- like (after fix d3e2cea: the object itself is asked, ClassValue.GetMethod): for every
    instance method the target declares (ClassStatement.Methods / InterfaceStatement.Methods),
    the object must have a method of that name with the same number of parameters *)
